@@ -210,3 +210,42 @@ func verifDumpValue(v value, seen map[uintptr]bool) *VerifNode {
 func VerifHandlingNames() []string {
 	return []string{"default", "merge", "replace", "append", "prepend", "arrreplace"}
 }
+
+// VerifNormalize exposes normalize: the tree a source value is turned into before it is
+// merged. For a *Config source this is the source itself.
+func VerifNormalize(from interface{}, options ...Option) (*VerifNode, error) {
+	opts := makeOptions(options)
+	c, err := normalize(opts, from)
+	if err != nil {
+		return nil, err
+	}
+	return VerifDump(c), nil
+}
+
+// VerifOptions is a view of the merge-relevant part of an option list.
+type VerifOptions struct {
+	Handling      int
+	FieldTree     *VerifNode
+	PathSep       string
+	MaxIdx        int64
+	EnableNumKeys bool
+	EscapePath    bool
+	VarExp        bool
+	IgnoreCommas  bool
+	NumEnv        int
+	NumResolvers  int
+}
+
+// VerifMakeOptions exposes makeOptions.
+func VerifMakeOptions(options ...Option) VerifOptions {
+	o := makeOptions(options)
+	out := VerifOptions{
+		Handling: int(o.configValueHandling), PathSep: o.pathSep, MaxIdx: o.maxIdx,
+		EnableNumKeys: o.enableNumKeys, EscapePath: o.escapePath, VarExp: o.varexp,
+		IgnoreCommas: o.ignoreCommas, NumEnv: len(o.env), NumResolvers: len(o.resolvers),
+	}
+	if o.fieldHandlingTree != nil {
+		out.FieldTree = VerifDump((*Config)(o.fieldHandlingTree))
+	}
+	return out
+}
